@@ -216,21 +216,25 @@ func checkC16(w *Worker) {
 	w.Explore("given-value-equals-the-default", ExploreOpts{ShardDepth: 4}, func(x *Exec) {
 		cfgLoc := 1 + x.Choose(3, "input:config-location")
 		i := x.Choose(4, "input:setting")
-		src := x.Choose(3, "input:source-of-the-default-value") // flag, variable, both (flag default, variable distinct)
-		cfgAll := x.Choose(2, "input:config-sets-every-entry") == 1
+		fl := x.Choose(3, "input:flag")     // not given, its own value, the default value
+		ev := x.Choose(3, "input:variable") // not given, its own value, the default value
+		cf := x.Choose(2, "input:config-entry") == 1
+		others := x.Choose(2, "input:every-other-source-set") == 1
+		if fl != 2 && ev != 2 {
+			x.Case("skip: no source carries the default value (covered by the precedence product)", false)
+			return
+		}
 		var flagSet, envSet, cfgSet [5]bool
 		flagVal, envVal := [5]int{0, 0, 0, 0, 0}, [5]int{1, 1, 1, 1, 1}
-		cfgSet[i] = true
-		if cfgAll {
-			cfgSet = [5]bool{true, true, true, true, true}
+		if others {
+			flagSet, envSet, cfgSet = [5]bool{true, true, true, true, true}, [5]bool{true, true, true, true, false}, [5]bool{true, true, true, true, true}
 		}
-		switch src {
-		case 0:
-			flagSet[i], flagVal[i] = true, 3
-		case 1:
-			envSet[i], envVal[i] = true, 3
-		default:
-			flagSet[i], flagVal[i], envSet[i] = true, 3, true
+		flagSet[i], envSet[i], cfgSet[i] = fl != 0, ev != 0, cf
+		if fl == 2 {
+			flagVal[i] = 3
+		}
+		if ev == 2 {
+			envVal[i] = 3
 		}
 		cell(x, cfgLoc, 5, flagSet, envSet, cfgSet, flagVal, envVal)
 	})
